@@ -124,7 +124,7 @@ fn closed_form_lm(p: &BTreeMap<String, String>, red: (f64, f64), lm: bool) -> Ex
         "biomass" => dsum * ratio("BIOMASA", red),
         "biomass+solar50" => 0.5 * dsum + 0.5 * dsum * ratio("BIOMASA", red),
         "biomass+dens_out" => 0.5 * dsum * ratio("BIOMASA", red) + 0.5 * dsum * ratio("BIOMASADENSIFICADA", red),
-        "gas+biomass_out" | "gas+biomass_out_heats" => 0.5 * dsum * ratio("BIOMASA", red),
+        "gas+biomass_out" | "gas+biomass_out_heats" | "gas+biomass_out_2lines" => 0.5 * dsum * ratio("BIOMASA", red),
         "dens" => dsum * ratio("BIOMASADENSIFICADA", red),
         _ => return Expect::NoClosedForm,
     };
@@ -374,6 +374,8 @@ fn slots(d: &[f64], demand_kind: &'static str, rich: bool) -> Vec<Vec<Letter>> {
         m("dens", vec![u(Some(1), "ACS", "BIOMASADENSIFICADA", &cv(&sc(1.25)))]),
         m("biomass+solar50", vec![u(Some(1), "ACS", "TERMOSOLAR", &cv(&sc(0.5))), u(Some(2), "ACS", "BIOMASA", &cv(&sc(0.625)))]),
         m("biomass+dens_out", vec![u(Some(1), "ACS", "BIOMASA", &cv(&sc(0.625))), o(1, "ACS", &cv(&sc(0.5))), u(Some(2), "ACS", "BIOMASADENSIFICADA", &cv(&sc(0.625))), o(2, "ACS", &cv(&sc(0.5)))]),
+        // the same biomass boiler written in two consumption lines (winter / summer) sharing one declared output
+        m("gas+biomass_out_2lines", vec![u(Some(1), "ACS", "BIOMASA", &cv(&sc(0.375))), u(Some(1), "ACS", "BIOMASA", &cv(&sc(0.25))), o(1, "ACS", &cv(&sc(0.5))), u(Some(2), "ACS", "GASNATURAL", &cv(&sc(0.5)))]),
         m("gas+biomass_out", vec![u(Some(1), "ACS", "BIOMASA", &cv(&sc(0.625))), o(1, "ACS", &cv(&sc(0.5))), u(Some(2), "ACS", "GASNATURAL", &cv(&sc(0.5)))]),
         m(
             "gas+biomass_out_heats",
